@@ -18,8 +18,9 @@ func (g *Gen) NsNamePool() NsNames {
 	t := g.letters(6)
 	u := g.letters(6)
 	return NsNames{
-		DBs:   []string{"shop" + t, "shop" + t + "_archive", "Δβ" + u, "db-" + u, "admin"},
-		Colls: []string{"orders" + t, "orders" + t + ".archive", "orders" + t + "_v2", "c" + u + "é漢", "system.views", "system.buckets." + u, "$cmd", "oplog.rs", "a." + t + ".b.c"},
+		// names that begin like a pseudonym of the replacement texts in use ("REDACTED_…", "anon_…", "_…")
+		DBs:   []string{"shop" + t, "shop" + t + "_archive", "Δβ" + u, "db-" + u, "anon_" + u, "REDACTED_" + t, "admin"},
+		Colls: []string{"orders" + t, "orders" + t + ".archive", "orders" + t + "_v2", "c" + u + "é漢", "anon_" + t, "_" + u + "x", "REDACTED_" + u, "system.views", "system.buckets." + u, "$cmd", "oplog.rs", "a." + t + ".b.c"},
 	}
 }
 
@@ -156,7 +157,15 @@ func (g *Gen) NsLog(lines int) ([]*Case, NsNames) {
 		if x.coll == "$cmd" && car == "originatingCommand" {
 			car = "command" // a getMore names a real collection, never $cmd
 		}
-		out = append(out, g.NsCase(n, x.db, x.coll, verb, car, i%4))
+		cs := g.NsCase(n, x.db, x.coll, verb, car, i%4)
+		out = append(out, cs)
+		if cs.Carrier == "originatingCommand" && g.chance(0.7) {
+			// the next batches of the same cursor repeat the originating command verbatim
+			out = append(out, cs)
+			if g.chance(0.5) {
+				out = append(out, cs)
+			}
+		}
 	}
 	return out, n
 }
